@@ -230,7 +230,7 @@ def replay_graph(ctx, res, n, sym, family, depth, nrandom, rdepth, budget=None):
     if not g.inits or g.n_edges == 0:
         raise MachineryError('no graph exported for ' + family)
     w = Walker(ctx, g, TablesAdapter(n, sym, ctx.seed), family)
-    ne = w.cover_edges()
+    ne = w.cover_edges(stutter=True)
     npaths, complete = w.all_paths(depth, budget)
     nr = w.random_walks(nrandom, rdepth, ctx.seed)
     ctx.stage(family, graph_states=len(g.state), graph_edges=g.n_edges, edges_replayed=ne,
